@@ -4,6 +4,7 @@
    and its call-site protocol). Nothing but statements closed by [exact] and their assumptions. *)
 From Coq Require Import List NArith Bool.
 Require Import XV.XsltEventsDefs XV.XsltEventsModel XV.XsltVarsDefs XV.XsltVarsModel XV.XsltFactsModel.
+Require Import XV.XsltLoopDefs XV.XsltLoopModel.
 Import ListNotations.
 
 (* ---- (a) pending-start-tag machine ---- *)
@@ -85,7 +86,7 @@ Print Assumptions pending_machine_example.
    of finding K-C01-1: a reference not bound locally is not to a name passed by a with-param of the
    enclosing invocation. rs selects the variant of the end of a template instance: false = the tree with
    K-C01-1 (resetParams never called), true = params deactivated when the template's frame is popped;
-   XsltFactsModel.reset_variant says which one the current source has. *)
+   XsltVariantDefs.reset_variant says which one the current source has. *)
 Theorem varstack_refines_lexical_env_partial : forall rs globals root,
   ok_root true root = true -> impl_run rs globals root = Some (spec_run globals root).
 Proof. exact varstack_refines_lexical_env_partial_thm. Qed.
@@ -122,6 +123,24 @@ Example varstack_example :
           (5, Some 7); (4, Some 9); (3, Some 30); (6, Some 600); (6, Some 60)]%N.
 Proof. vm_compute. split; reflexivity. Qed.
 Print Assumptions varstack_example.
+
+(* ---- (c) the iterative interpreter loop ---- *)
+
+(* ElemTemplateElement::execute with the default startElement / endElement / getInvoker /
+   getNextChildElemToExecute protocol (and xsl:for-each handing out its first child again per node): for
+   EVERY instruction tree the loop stops after exactly steps t iterations having started and ended the
+   elements in the order of the structural recursion; more fuel changes nothing. *)
+Theorem iterative_eq_recursive : forall t f, exec_iter (steps t + f) t = (Done, exec_rec t).
+Proof. exact iterative_eq_recursive_thm. Qed.
+Print Assumptions iterative_eq_recursive.
+
+Example iterative_loop_example :
+  let t := (Node 1 1 [Node 2 0 [Node 3 1 []]; Node 4 2 [Node 5 1 []; Node 6 1 [Node 7 1 []]]; Node 8 1 []])%N in
+  steps t = 20 /\ fst (exec_iter 19 t) <> Done /\
+  snd (exec_iter 20 t) = [Start 1; Start 2; End 2; Start 4; Start 5; End 5; Start 6; Start 7; End 7; End 6;
+                          Start 5; End 5; Start 6; Start 7; End 7; End 6; End 4; Start 8; End 8; End 1]%N.
+Proof. vm_compute. repeat split; try reflexivity. discriminate. Qed.
+Print Assumptions iterative_loop_example.
 
 (* ---- tie: the source still has the structure the two models were written for (GenXslt.v is
    regenerated from /repo on every run by translator/gen_xslt.py) ---- *)
